@@ -160,6 +160,13 @@ func (o *Opts) addExtras(m *ordered.MapSA, n int) {
 			}
 		}
 	}
+	if o.MaxMapSize > 8 && r.Intn(12) == 0 {
+		// many unknown keys at this very level (the struct's own inline map grows beyond Go's 8-entry bucket)
+		for i := 0; i < 9+r.Intn(4); i++ {
+			m.Set(fmt.Sprintf("zz_extra_%d", i), o.Scalar())
+		}
+		o.hist("many-extras-at-struct-level")
+	}
 	if o.MaxMapSize > 8 && r.Intn(6) == 0 {
 		// a big unknown mapping: beyond Go's 8-entry bucket
 		big := ordered.NewMap[string, any](16)
